@@ -988,9 +988,7 @@ func (w *world) reconcile(p string, mode string) map[string]any {
 	}
 	w.syncFromBinder()
 	if mode == "crash" { // whatever the dying process returned is lost; the restarted binder re-queues everything
-		if !died {
-			infra("crash mode: no label was written (scenario %s)", w.sc.ID)
-		}
+		_ = died // no label written: the reconcile ended before reserving a group (the trace shows it: lab unchanged)
 		w.newReconciler()
 		w.restarts++
 		for _, x := range w.pods {
@@ -1136,8 +1134,8 @@ func (w *world) reach(p string) bool {
 }
 
 // drain: the environment becomes fault-free. Orphaned BindRequests are garbage collected, the binder's queue is
-// resynced, then rounds of {successful reconcile of every queued key, scheduler cycle} until a whole round
-// changes nothing (bounded). Returns 1 if the system came to rest.
+// resynced, then rounds of {successful reconcile of every queued key, scheduler cycle} until nothing is queued
+// and a cycle changes nothing (bounded). Returns 1 if the system came to rest.
 func (w *world) drain(emit func(step)) int {
 	for _, p := range w.pods {
 		if w.getBr(p) != nil && w.getPod(p) == nil {
@@ -1146,15 +1144,19 @@ func (w *world) drain(emit func(step)) int {
 	}
 	emit(step{N: "StartDrain"})
 	for round := 0; round < 8; round++ {
-		before, _ := json.Marshal(w.projectStore())
 		for _, p := range w.pods {
 			if w.q[p] {
 				emit(step{N: "BinderAttempt", P: p, Out: "ok"})
 			}
 		}
+		before, _ := json.Marshal(w.projectStore())
 		emit(step{N: "SchedCycle"})
 		after, _ := json.Marshal(w.projectStore())
-		if string(before) == string(after) {
+		queued := false
+		for _, p := range w.pods {
+			queued = queued || w.q[p]
+		}
+		if !queued && string(before) == string(after) { // nothing queued and the cycle had nothing to do: at rest
 			return 1
 		}
 	}
